@@ -9,7 +9,11 @@ Inductive case :=
       (* events.get_key(s, enc, keynames=curtsies / curses / bytes, full) *)
 | CStreamModes (enc : encoding) (buf : list N) (r : results)
       (* the same buffer decoded by a real Input in the three naming modes *)
-| CKeymap (name : str) (r : res (list str)).                     (* configfile_keynames.keymap[name] *)
+| CKeymap (name : str) (r : res (list str))                      (* configfile_keynames.keymap[name] *)
+| CTables (term : str) (curtsies curses : list (list N * str)).
+      (* events.CURTSIES_NAMES / CURSES_NAMES (sorted by key) of a fresh interpreter started with TERM=term *)
+
+Definition row_eqb (a b : list N * str) : bool := str_eqb (fst a) (fst b) && str_eqb (snd a) (snd b).
 
 Definition strs_eqb : list str -> list str -> bool := list_eqb str_eqb.
 
@@ -30,6 +34,9 @@ Definition model_ok (c : case) : bool :=
       res_eqb strs_eqb (run_mode enc CURSES buf) rs &&
       res_eqb strs_eqb (run_mode enc BYTES buf) rb
   | CKeymap name r => res_eqb strs_eqb (keymap_get name) r
+  | CTables _ curtsies curses =>
+      (* the tables the theorems are about (Gen/Tables.v) are the tables under every TERM *)
+      list_eqb row_eqb curtsies curtsies_names && list_eqb row_eqb curses curses_names
   end.
 
 Definition key_ok (enc : encoding) (mode : keynames) (s : list N) (o : outcome) : bool :=
@@ -53,6 +60,9 @@ Definition spec_ok (c : case) : bool :=
       if is_nil name then res_eqb strs_eqb r (Ok [])                 (* unbound key -> nothing *)
       else if existsb (str_eqb name) valid_config_names then config_ok r
       else config_loose_ok r
+  | CTables _ curtsies curses =>
+      (* every sequence that has a curses-style name also has a curtsies name *)
+      forallb (fun kv => existsb (fun kv' => str_eqb (fst kv) (fst kv')) curtsies) curses
   end.
 
 End C20.
